@@ -131,6 +131,7 @@ type harness struct {
 	direct   *capture
 	items    []string // Cases_C16.v
 	urlIdx   map[string]bool
+	tRot     int
 }
 
 type replayT struct {
@@ -339,12 +340,22 @@ func (h *harness) exercise(row authMsg, pl payload, vs []variant) {
 		}
 	}
 
+	h.tRot++
 	levels := []string{"A", "T"}
 	if hasDirect {
 		levels = append(levels, "B")
 	}
-	for _, v := range vs {
+	lite := pl.NoPositive != "" // zero payloads etc.: the router delivery alone, the other levels add nothing there
+	for vi, v := range vs {
 		for _, lv := range levels {
+			// the tx-cache delivery is dominated by A (same handler, writes discarded on error): a rotating quarter
+			// of the authorities gets it, so that every (type, authority class) pair sees it over the payload variants
+			if lv == "T" && (lite || (vi+h.tRot)%4 != 0) {
+				continue
+			}
+			if lv == "B" && lite {
+				continue
+			}
 			m := clone(pl.Msg)
 			setSigner(m, row.GoField, v.Value)
 			ctx, _ := c.Ctx.CacheContext()
